@@ -1,6 +1,6 @@
 #!/bin/bash
 # runs every seeded change against the quick check of the property it breaks (scratch worktrees, 4 at a time; /repo untouched);
 # prints one line per change.  usage: selftest/all_seeded.sh [jobs]
-cd /verif
+cd "$(dirname "$(readlink -f "$0")")/.."
 J=${1:-4}
 ls -d seeded/*/ | xargs -P$J -I{} sh -c 'd={}; p=$(python3 -c "import json;print(json.load(open(\"$d/meta.json\"))[\"breaks_property\"])"); selftest/try_wt.sh $d $p 2>&1 | grep " :: "'
